@@ -3,6 +3,7 @@ package commitlog
 import (
 	"errors"
 	"hash/crc32"
+	"math"
 
 	client "github.com/liftbridge-io/liftbridge-api/v2/go"
 )
@@ -37,6 +38,9 @@ func (m *Message) Encode(e packetEncoder) error {
 	}
 	if err := e.PutBytes(m.Value); err != nil {
 		return err
+	}
+	if len(m.Headers) > math.MaxInt16 {
+		return errInvalidArrayLength
 	}
 	e.PutInt16(int16(len(m.Headers)))
 	for key, header := range m.Headers {
